@@ -276,24 +276,61 @@ def _table_keys(m, g):
     return keys
 
 
+def _key_test(t, keyvar, key, local_defs, depth=0):
+    """truth of test `t` when keyvar == key: True / False / None (does not depend on the key or not understood)."""
+    if depth > 4:
+        return None
+    if isinstance(t, ast.Name) and t.id in local_defs:
+        return _key_test(local_defs[t.id], keyvar, key, local_defs, depth + 1)
+    if isinstance(t, ast.UnaryOp) and isinstance(t.op, ast.Not):
+        v = _key_test(t.operand, keyvar, key, local_defs, depth + 1)
+        return None if v is None else (not v)
+    if isinstance(t, ast.BoolOp):
+        vs = [_key_test(x, keyvar, key, local_defs, depth + 1) for x in t.values]
+        if isinstance(t.op, ast.And):
+            return False if any(v is False for v in vs) else (True if all(v is True for v in vs) else None)
+        return True if any(v is True for v in vs) else (False if all(v is False for v in vs) else None)
+    if isinstance(t, ast.Compare) and len(t.ops) == 1 and isinstance(t.left, ast.Name) and t.left.id == keyvar:
+        op, c = t.ops[0], t.comparators[0]
+        if isinstance(op, (ast.In, ast.NotIn)) and isinstance(c, (ast.Tuple, ast.List, ast.Set)) \
+                and all(isinstance(e, ast.Constant) for e in c.elts):
+            r = key in {e.value for e in c.elts}
+            return r if isinstance(op, ast.In) else not r
+        if isinstance(op, (ast.Eq, ast.NotEq)) and isinstance(c, ast.Constant):
+            r = key == c.value
+            return r if isinstance(op, ast.Eq) else not r
+    return None
+
+
 def _reachable_keys(fi, g, all_keys):
-    """Keys of table g that can reach the `g[key]` lookup in fi, from enclosing
-    `key in (...)` tests (key-domain refinement)."""
+    """Keys of table g that can reach the `g[key]` lookup in fi: the enclosing tests (through local boolean names,
+    and/or/not, `in (...)`, `==`) are evaluated per key; a key is excluded when some enclosing test is definitely
+    against it."""
     name = g.rsplit('.', 1)[1]
     pm = parents(fi.node)
+    local_defs = {}
+    counts = {}
+    for st in ast.walk(fi.node):
+        if isinstance(st, ast.Assign) and len(st.targets) == 1 and isinstance(st.targets[0], ast.Name):
+            counts[st.targets[0].id] = counts.get(st.targets[0].id, 0) + 1
+            local_defs[st.targets[0].id] = st.value
+    local_defs = {k: v for k, v in local_defs.items() if counts[k] == 1}
     res = None
     for n in ast.walk(fi.node):
         if isinstance(n, ast.Subscript) and isinstance(n.value, ast.Name) and n.value.id == name \
                 and isinstance(n.slice, ast.Name):
             keyvar = n.slice.id
-            dom = set(all_keys)
-            for t, pol in enclosing_tests(fi.node, n, pm):
-                if isinstance(t, ast.Compare) and len(t.ops) == 1 and isinstance(t.left, ast.Name) \
-                        and t.left.id == keyvar and isinstance(t.ops[0], (ast.In, ast.NotIn)) \
-                        and isinstance(t.comparators[0], (ast.Tuple, ast.List, ast.Set)):
-                    ks = {e.value for e in t.comparators[0].elts if isinstance(e, ast.Constant)}
-                    positive = isinstance(t.ops[0], ast.In) == pol
-                    dom = dom & ks if positive else dom - ks
+            dom = set()
+            tests = enclosing_tests(fi.node, n, pm)
+            for key in all_keys:
+                ok = True
+                for t, pol in tests:
+                    v = _key_test(t, keyvar, key, {k: v for k, v in local_defs.items() if k != keyvar})
+                    if v is not None and v != pol:
+                        ok = False
+                        break
+                if ok:
+                    dom.add(key)
             res = dom if res is None else (res | dom)
     return res
 
